@@ -30,6 +30,21 @@ type c18Op struct {
 	FlagFirst bool   `json:"flag_first,omitempty"` // `mockery --config X init P` instead of `mockery init --config X P`
 	Cwd       string `json:"cwd,omitempty"`        // directory (relative to the root) the command runs in
 	Obstacle  string `json:"obstacle,omitempty"`   // mutate: dir | symlink | dangling-symlink at the target
+	// Env: MOCKERY_* settings exported while this command runs (init: what the file states are
+	// the defaults, not what the environment of the moment says)
+	Env map[string]string `json:"env,omitempty"`
+}
+
+var c18EnvPool = [][2]string{{"MOCKERY_LOG_LEVEL", "debug"}, {"MOCKERY_DIR", "envmocks"}, {"MOCKERY_FORCE_FILE_WRITE", "true"}, {"MOCKERY_FORMATTER", "gofmt"},
+	{"MOCKERY_PKGNAME", "envpkg"}, {"MOCKERY_ALL", "false"}, {"MOCKERY_TEMPLATE", "matryer"}, {"MOCKERY_FILENAME", "env_mocks.go"}, {"MOCKERY_STRUCTNAME", "Env{{.InterfaceName}}"}}
+
+func c18Env(r *core.Rng) map[string]string {
+	env := map[string]string{}
+	for k := r.Range(1, 2); k > 0; k-- {
+		kv := core.Pick(r, c18EnvPool)
+		env[kv[0]] = kv[1]
+	}
+	return env
 }
 
 type c18Case struct {
@@ -94,6 +109,9 @@ func c18Gen(r *core.Rng, seed uint64) c18Case {
 		switch r.Intn(8) {
 		case 0, 1, 2:
 			cs.Ops = append(cs.Ops, c18Op{Kind: "init", Pkg: pick(), Config: target, FlagFirst: r.Bool()})
+			if r.Chance(1, 3) {
+				cs.Ops[len(cs.Ops)-1].Env = c18Env(r)
+			}
 		case 3:
 			cs.Ops = append(cs.Ops, c18Op{Kind: "showconfig", Config: target})
 		case 4:
@@ -147,7 +165,7 @@ func evalC18(c *core.Ctx, cs c18Case, id string) Outcome {
 		return out
 	}
 	run := func(op c18Op, args ...string) world.StepResult {
-		st := world.Step{Args: args, Cwd: op.Cwd, Plan: world.Plan(core.Pick(r, []string{"asc", "desc", "random"}), r.Uint64(), 0, 1995+r.Intn(60), 1+r.Intn(30000))}
+		st := world.Step{Args: args, Cwd: op.Cwd, Env: op.Env, Plan: world.Plan(core.Pick(r, []string{"asc", "desc", "random"}), r.Uint64(), 0, 1995+r.Intn(60), 1+r.Intn(30000))}
 		out.Runs++
 		res := world.Run(c.Bin, root, base, st, 90*time.Second)
 		if v := res.OrderVector(); v != "" {
@@ -216,6 +234,9 @@ func evalC18(c *core.Ctx, cs c18Case, id string) Outcome {
 				state = "present:" + before[rel].Kind
 			}
 			out.Tags = append(out.Tags, "init-on:"+state)
+			if len(op.Env) > 0 {
+				out.Tags = append(out.Tags, "fault:init-under-MOCKERY-environment")
+			}
 			if res.Panicked() {
 				return mk(i, "init-panic", state, "no panic", tail(res.Stderr, 500))
 			}
@@ -443,7 +464,11 @@ func RunC18(c *core.Ctx) int {
 				if i >= len(c18Weird) {
 					tgt = core.Pick(r, []string{"alt.yml", "conf/nested/.mockery.yml", "conf/my config.yaml", world.RootPlaceholder + "/conf/abs.yml"})
 				}
-				cs.Ops = []c18Op{{Kind: "init", Pkg: w, Config: tgt, FlagFirst: r.Bool()}, {Kind: "defaults", Config: tgt}, {Kind: "run", Config: tgt}, {Kind: "init", Pkg: core.Pick(r, c18Weird), Config: tgt}, {Kind: "showconfig", Config: tgt}}
+				var env map[string]string
+				if i%2 == 1 {
+					env = c18Env(r)
+				}
+				cs.Ops = []c18Op{{Kind: "init", Pkg: w, Config: tgt, FlagFirst: r.Bool(), Env: env}, {Kind: "defaults", Config: tgt}, {Kind: "run", Config: tgt}, {Kind: "init", Pkg: core.Pick(r, c18Weird), Config: tgt}, {Kind: "showconfig", Config: tgt}}
 			}
 			return cs
 		},
